@@ -184,7 +184,7 @@ func c07r6(c *Ctx) {
 				okSplit = true
 			}
 		case *ast.ForStmt:
-			if inc, ok := l.Post.(*ast.IncDecStmt); ok && inc.Tok == token.INC {
+			if _, tok, ok := prog.IncDecOf(info, l.Post); ok && tok == token.INC {
 				if as, ok := l.Init.(*ast.AssignStmt); ok && len(as.Rhs) == 1 && prog.MentionsField(info, as.Rhs[0], "store.HintID.Chunk") {
 					okChunk = true
 				}
